@@ -44,6 +44,18 @@ def check(ctx):
         if not ok:
             ctx.violation("R-C05.2", f"case-default-asymmetry:{fname}:{','.join(sorted(classes))}", f"{fname} tests `{S.unparse(c)}`: `case` and `default` labels must be treated alike ({sorted({'Case', 'Default'} - classes)} missing) or statements end up under the wrong label",
                           file=tx.rel, function=fname, line=c.lineno)
+    # ... and the items of the switch body are told apart ONLY by "is a case / default label or not": a class test on the item that singles out
+    # another kind of statement (declarations, pragmas ...) files that kind somewhere else than under the nearest preceding label
+    fsw = tx.function("fix_switch_cases")
+    lvars = {lp.target.id for lp in ast.walk(fsw) if isinstance(lp, ast.For) and isinstance(lp.target, ast.Name)}
+    for c in ast.walk(fsw):
+        if isinstance(c, ast.Call) and isinstance(c.func, ast.Name) and c.func.id == "isinstance" and len(c.args) == 2 and isinstance(c.args[0], ast.Name) and c.args[0].id in lvars:
+            classes = {n.attr for n in ast.walk(c.args[1]) if isinstance(n, ast.Attribute) and isinstance(n.value, ast.Name) and n.value.id == "c_ast"}
+            ok = classes <= {"Case", "Default"}
+            ctx.oblige("R-C05.2", f"fix_switch_cases: class test on the block item: {sorted(classes)}", ok)
+            if not ok:
+                ctx.violation("R-C05.2", f"item-class-test:{','.join(sorted(classes - {'Case', 'Default'}))}", f"fix_switch_cases tests `{S.unparse(c)}`: items of a switch body may only be told apart as label / not label; a {sorted(classes - {'Case', 'Default'})} "
+                              "item that is treated differently does not end up under the nearest preceding case / default label, in source order", file=tx.rel, function="fix_switch_cases", line=c.lineno)
     # only append / pop(+append) on the statement lists
     for fname in ("fix_switch_cases", "_extract_nested_case"):
         fn = tx.function(fname)
@@ -108,6 +120,36 @@ def check(ctx):
             what = "a plain label in front of a case label (`L: case 1: a(); b();`)" if cls == "Label" else "#pragma lines between a label and the case label that follows (`case 1:` / `#pragma p` / `case 2: a(); b();`)" if cls == "Compound" else f"a {cls} node"
             ctx.violation("R-C05.7", f"switch-wrapper-not-searched:{cls}.{f_}", f"{meth} can nest a case / default label inside {cls}.{f_} ({what}), but fix_switch_cases / _extract_nested_case only look for nested labels in "
                           f"{sorted(searched)}: the nested case is never promoted to a sibling, and the statements after it are appended under an EARLIER case (or left outside every case)", file=tx.rel, function="fix_switch_cases")
+    # ---- R-C05.8: context flags nest ----------------------------------------------------------------------------------------
+    # A parser attribute that is set around the parsing of a nested construct ("inside a switch", "inside a loop") must be RESTORED to the value it
+    # had, not reset to a constant: statements nest, so the same production runs again inside the construct and its reset would switch the flag off
+    # for the rest of the outer construct.
+    ctx.rule("R-C05.8", "context flags nest: an instance attribute set around the parse of a sub-construct is restored to its saved value afterwards, never reset to a constant")
+    px8 = S.module("c_parser")
+    n8 = 0
+    for mname, fn in px8.methods("CParser").items():
+        if not mname.startswith("_parse_"):
+            continue
+        for blk_owner in ast.walk(fn):
+            for fld in ("body", "orelse"):
+                blk = getattr(blk_owner, fld, None)
+                if not isinstance(blk, list):
+                    continue
+                sets = [(i, st) for i, st in enumerate(blk) if isinstance(st, ast.Assign) and len(st.targets) == 1 and isinstance(st.targets[0], ast.Attribute)
+                        and isinstance(st.targets[0].value, ast.Name) and st.targets[0].value.id == fn.args.args[0].arg]
+                for (i, a), (j, b) in [(x, y) for x in sets for y in sets if x[0] < y[0] and x[1].targets[0].attr == y[1].targets[0].attr]:
+                    between = blk[i + 1:j]
+                    parses = any(isinstance(c, ast.Call) and isinstance(c.func, ast.Attribute) and c.func.attr.startswith(("_parse_", "_try_parse_")) for st in between for c in ast.walk(st)) or \
+                        any(isinstance(c, ast.Call) and isinstance(c.func, ast.Attribute) and c.func.attr.startswith(("_parse_", "_try_parse_")) for c in ast.walk(b.value))
+                    if not parses:
+                        continue
+                    n8 += 1
+                    ok = not isinstance(b.value, ast.Constant)
+                    ctx.oblige("R-C05.8", f"{mname}: self.{a.targets[0].attr} restored after the nested parse", ok)
+                    if not ok:
+                        ctx.violation("R-C05.8", f"flag-not-restored:{a.targets[0].attr}", f"{mname} sets self.{a.targets[0].attr} (`{S.unparse(a)}`), parses a nested construct and then resets it to the constant `{S.unparse(b.value)}` instead of the value it had: "
+                                      "when the construct is nested in another one of the same kind, the flag is wrong for the rest of the outer construct (e.g. a `case` label after an inner `switch` is refused)", file=px8.rel, function=f"CParser.{mname}", line=b.lineno)
+    ctx.oblige("R-C05.8", "no parser flag is reset to a constant after a nested parse", True, nontrivial=False)
     # ---- R-C05.3 ---------------------------------------------------------------------
     px = S.module("c_parser")
     for m in ("_parse_block_item_list", "_parse_translation_unit", "_parse_struct_declaration_list", "_parse_declaration_list", "_parse_pppragma_directive_list"):
